@@ -359,8 +359,24 @@ class InequalityMultiMarker(SingleMarker):
         return environment[self.name] not in self.values
 
 
-@functools.lru_cache(maxsize=None)
 def _merge_single_markers(
+    marker1: MarkerExpression,
+    marker2: MarkerExpression,
+    merge_class: type[MultiMarker | MarkerUnion],
+) -> BaseMarker | None:
+    merged = _cached_merge_single_markers(marker1, marker2, merge_class)
+    # Expressions compare equal regardless of the operand order they were written
+    # in, so the cached result may be an operand of an earlier, differently
+    # written call. Always hand back the caller's own operand in that case.
+    if merged == marker1:
+        return marker1
+    if merged == marker2:
+        return marker2
+    return merged
+
+
+@functools.lru_cache(maxsize=None)
+def _cached_merge_single_markers(
     marker1: MarkerExpression,
     marker2: MarkerExpression,
     merge_class: type[MultiMarker | MarkerUnion],
